@@ -27,6 +27,44 @@ def flat(x) -> str:
     return t.replace("(", "").replace(")", "").replace(" ", "")
 
 
+def _saenger_lookup_pinned(chk, ds) -> None:
+    repo = chk.repo
+    inl = Inliner(ds.node)
+    fm = FlowMap(ds.node)
+    KEY = "(f'{residue_i.one_letter_name}{residue_j.one_letter_name}', lw.value)"
+    rets = [r for r in astq.walk_no_nested(ds.node) if isinstance(r, ast.Return)]
+    hits = 0
+    problems = []
+    for r in rets:
+        if r.value is None or norm(r.value) == "None":
+            continue
+        v = inl.inline(r.value, r, stop=("residue_i", "residue_j", "lw"))
+        t = flat(v)
+        if t == flat(f"Saenger[Saenger.table()[{KEY}]]"):
+            fs = facts(fm.of(r).guards)
+            present = any((flat(inl.inline(g.test, g.stmt or r, stop=("residue_i", "residue_j", "lw"))) == flat(f"{KEY} in Saenger.table()") and g.polarity) or (flat(inl.inline(g.test, g.stmt or r, stop=("residue_i", "residue_j", "lw"))) == flat(f"{KEY} not in Saenger.table()") and not g.polarity) for g in fs)
+            if present:
+                hits += 1
+            else:
+                problems.append(("violation", r, "the Saenger table is subscripted without testing that the key is present: KeyError for pairs that have no Saenger class"))
+        elif t.startswith(flat("Saenger[Saenger.table()[")):
+            swapped = flat("(f'{residue_j.one_letter_name}{residue_i.one_letter_name}', lw.value)")
+            if swapped in t:
+                problems.append(("violation", r, "the Saenger key takes the bases in the order (j, i) while the class lw is read from i to j"))
+            else:
+                problems.append(("error", r, f"Saenger key `{t[24:100]}` not recognised"))
+        else:
+            problems.append(("error", r, f"return value `{t[:80]}` not recognised"))
+    for kind2, r, msg in problems:
+        if kind2 == "error":
+            chk.error("saenger-lookup", ds.site(r), msg)
+        else:
+            chk.violation("saenger-lookup", ds.site(r), msg, K(ds, "lookup"))
+    if not problems:
+        none_ret = any(r.value is None or norm(r.value) == "None" for r in rets)
+        chk.expect(hits == 1 and none_ret, "saenger-lookup", ds.where, "Saenger class = table[(bases in pair order, lw name)] when present, else None", "detect_saenger does not look up (base_i + base_j, lw.value) in Saenger.table() and return None otherwise", K(ds, "lookup"))
+
+
 def check_saenger(chk) -> None:
     repo = chk.repo
     tf = repo.func(CM, "Saenger.table")
@@ -87,43 +125,16 @@ def check_saenger(chk) -> None:
         K(tf, "symmetry"),
         found=asym,
     )
-    # lookup
+    # lookup: fact-level (paths of detect_saenger), pinned form only when that reading is impossible
+    from checks import c11e
+
     ds = repo.func(AN, "detect_saenger")
     chk.note_function(ds)
-    inl = Inliner(ds.node)
-    fm = FlowMap(ds.node)
-    KEY = "(f'{residue_i.one_letter_name}{residue_j.one_letter_name}', lw.value)"
-    rets = [r for r in astq.walk_no_nested(ds.node) if isinstance(r, ast.Return)]
-    hits = 0
-    problems = []
-    for r in rets:
-        if r.value is None or norm(r.value) == "None":
-            continue
-        v = inl.inline(r.value, r, stop=("residue_i", "residue_j", "lw"))
-        t = flat(v)
-        if t == flat(f"Saenger[Saenger.table()[{KEY}]]"):
-            fs = facts(fm.of(r).guards)
-            present = any((flat(inl.inline(g.test, g.stmt or r, stop=("residue_i", "residue_j", "lw"))) == flat(f"{KEY} in Saenger.table()") and g.polarity) or (flat(inl.inline(g.test, g.stmt or r, stop=("residue_i", "residue_j", "lw"))) == flat(f"{KEY} not in Saenger.table()") and not g.polarity) for g in fs)
-            if present:
-                hits += 1
-            else:
-                problems.append(("violation", r, "the Saenger table is subscripted without testing that the key is present: KeyError for pairs that have no Saenger class"))
-        elif t.startswith(flat("Saenger[Saenger.table()[")):
-            swapped = flat("(f'{residue_j.one_letter_name}{residue_i.one_letter_name}', lw.value)")
-            if swapped in t:
-                problems.append(("violation", r, "the Saenger key takes the bases in the order (j, i) while the class lw is read from i to j"))
-            else:
-                problems.append(("error", r, f"Saenger key `{t[24:100]}` not recognised"))
-        else:
-            problems.append(("error", r, f"return value `{t[:80]}` not recognised"))
-    for kind2, r, msg in problems:
-        if kind2 == "error":
-            chk.error("saenger-lookup", ds.site(r), msg)
-        else:
-            chk.violation("saenger-lookup", ds.site(r), msg, K(ds, "lookup"))
-    if not problems:
-        none_ret = any(r.value is None or norm(r.value) == "None" for r in rets)
-        chk.expect(hits == 1 and none_ret, "saenger-lookup", ds.where, "Saenger class = table[(bases in pair order, lw name)] when present, else None", "detect_saenger does not look up (base_i + base_j, lw.value) in Saenger.table() and return None otherwise", K(ds, "lookup"))
+    try:
+        c11e.check_saenger_lookup(chk, ds)
+    except (c11e.NotReadable, c11e.SX.TooManyPaths) as ex:
+        chk.ok("reading", ds.where, f"detect_saenger: fact-level reading not possible ({str(ex)[:100]}); pinned-form rule used")
+        _saenger_lookup_pinned(chk, ds)
     # LW reverse
     from checks import c06
 
@@ -206,10 +217,28 @@ def classification_table(chk, fi) -> Dict[str, Dict[str, Set[Any]]]:
 
 
 def check_bph(chk) -> None:
+    from checks import c11e
+
     repo = chk.repo
     sp = spec("bph_classes.json")
     fi = repo.func(AN, "detect_bph_br_classification")
     chk.note_function(fi)
+    # every class is a member digit 0..9 and both enums have _0.._9
+    for en, suffix in (("BPh", "BPh"), ("BR", "BR")):
+        mem = repo.enum_members(CM, en)
+        ok = set(mem) == {f"_{i}" for i in range(10)} and all(isinstance(v, ast.Constant) and v.value == f"{k[1:]}{suffix}" for k, v in mem.items())
+        chk.expect(ok, "bph-enum-total", f"src/rnapolis/common.py {en}", f"{en} has members _0.._9 valued '<digit>{suffix}'", f"{en} members are not _0.._9 with values '<digit>{suffix}': {en}[f'_{{class}}'] can raise KeyError or mislabel", f"common:{en}:members")
+    try:
+        c11e.check_bph_table(chk, fi, sp, Folder(repo, AN).fold)
+        return
+    except (c11e.NotReadable, c11e.SX.TooManyPaths) as ex:
+        chk.ok("reading", fi.where, f"detect_bph_br_classification: fact-level reading not possible ({str(ex)[:100]}); if-ladder reading used")
+    _bph_ladder(chk, fi, sp)
+
+
+def _bph_ladder(chk, fi, sp) -> None:
+    """Reading of the classifier as an if-ladder over letter / name comparisons (fallback of c11e.check_bph_table)."""
+    repo = chk.repo
     table = classification_table(chk, fi)
     for b, row in table.items():
         for d, got in row.items():
@@ -229,11 +258,6 @@ def check_bph(chk) -> None:
                 expected=sorted(want),
                 found=sorted(map(str, got)),
             )
-    # every class is a member digit 0..9 and both enums have _0.._9
-    for en, suffix in (("BPh", "BPh"), ("BR", "BR")):
-        mem = repo.enum_members(CM, en)
-        ok = set(mem) == {f"_{i}" for i in range(10)} and all(isinstance(v, ast.Constant) and v.value == f"{k[1:]}{suffix}" for k, v in mem.items())
-        chk.expect(ok, "bph-enum-total", f"src/rnapolis/common.py {en}", f"{en} has members _0.._9 valued '<digit>{suffix}'", f"{en} members are not _0.._9 with values '<digit>{suffix}': {en}[f'_{{class}}'] can raise KeyError or mislabel", f"common:{en}:members")
     # torsion splits: atoms and +-90 window
     inl = Inliner(fi.node)
     fold = Folder(repo, AN).fold
@@ -257,11 +281,29 @@ def check_bph(chk) -> None:
 
 
 def check_bph_branches(chk) -> None:
+    from checks import c03e, c11e
+
     repo = chk.repo
     fi = repo.func(AN, "find_pairs")
     chk.note_function(fi)
     fm = FlowMap(fi.node)
     loop = c03.kd_loop(chk, fi)
+    chk.robust |= {"bph-branch", "bph-record", "result-order"}
+    try:
+        c11e.check_bph_branches(chk, fi, c03e.pairs_model(chk, fi, loop))
+    except (c03e.NotReadable, c03e.SX.TooManyPaths) as ex:
+        chk.ok("reading", fi.where, f"base-phosphate / base-ribose branches: fact-level reading not possible ({str(ex)[:100]}); pinned-form rules used")
+        saved = set(chk.robust)
+        chk.robust -= {"bph-branch", "bph-record"}
+        try:
+            _bph_branches_pinned(chk, fi, fm, loop)
+        finally:
+            chk.robust |= saved
+    _emission(chk, fi, fm, loop)
+
+
+def _bph_branches_pinned(chk, fi, fm, loop) -> None:
+    repo = chk.repo
     for acc_list, store, name in (("PHOSPHATE_ACCEPTORS", "base_phosphate_pairs", "base-phosphate"), ("RIBOSE_ACCEPTORS", "base_ribose_pairs", "base-ribose")):
         br = [s for s in loop.body if isinstance(s, ast.If) and acc_list in norm(s.test)]
         if len(br) != 1:
@@ -306,6 +348,12 @@ def check_bph_branches(chk) -> None:
         ok = len(apps) == 1 and isinstance(apps[0].args[0], ast.Tuple) and len(apps[0].args[0].elts) == 3 and norm(apps[0].args[0].elts[2]) == v and any(norm(g.test) == f"{v} is not None" and g.polarity for g in fm.guards_within(fm.stmt_of(apps[0]), b))
         used = sorted(norm(a.args[0]) for a in astq.calls(b, "add") if astq.dotted(a.func.value) == "used_atoms")
         chk.expect(ok and used == ["atom_i", "atom_j"], "bph-record", fi.site(b), f"a classified contact is recorded as (donor residue, acceptor residue, class) and both atoms are marked used", f"{name}: a classified contact is not recorded as (donor_residue, acceptor_residue, class) with both atoms marked used", K(fi, f"{name}-record"))
+
+
+def _emission(chk, fi, fm, loop) -> None:
+    from checks import c11e
+
+    repo = chk.repo
     # emission
     for store, mp, cls, en, lst in (("base_phosphate_pairs", "bph_map", "BasePhosphate", "BPh", "base_phosphates"), ("base_ribose_pairs", "br_map", "BaseRibose", "BR", "base_riboses")):
         d = astq.first_assign(fi.node, mp)
@@ -333,8 +381,7 @@ def check_bph_branches(chk) -> None:
             chk.error("sorted-emission", fi.site(site), f"emission source `{norm(it)}` not recognised")
         want = f"BasePair(Residue({a}.label, {a}.auth), Residue({b}.label, {b}.auth), {l}, detect_saenger({a}, {b}, {l}))"
         chk.expect(norm(rec) == want, "bp-emission-record", fi.site(site), "BasePair(first, second, lw, saenger of the same triple)", f"the emitted base pair is `{norm(rec)[:120]}`, not BasePair(Residue(i), Residue(j), lw, detect_saenger(i, j, lw))", K(fi, "bp-emission"), found=norm(rec))
-    rets = [r for r in fi.node.body if isinstance(r, ast.Return)]
-    chk.expect(len(rets) == 1 and norm(rets[0].value) == "(base_pairs, base_phosphates, base_riboses)", "result-order", fi.where, "returns (base_pairs, base_phosphates, base_riboses)", "find_pairs does not return (base_pairs, base_phosphates, base_riboses)", K(fi, "result"))
+    c11e.check_result_order(chk, fi)
     ebi = repo.func(AN, "extract_base_interactions")
     chk.note_function(ebi)
     body = [norm(s) for s in ebi.node.body if not isinstance(s, ast.Expr)]
@@ -408,6 +455,10 @@ def run(chk) -> None:
     check_merge(chk)
     check_bph(chk)
     check_saenger(chk)
+    from checks import c11e
+
+    chk.robust |= {"order-keys"}
+    c11e.check_order_keys(chk)
     # stackings: orientation + sorted emission are C04's rules; re-evaluate the emission part here
     from checks import c04  # noqa: F401  (kept separate: C04 owns the geometric thresholds)
 
